@@ -20,6 +20,7 @@ E == Rec[l]
 Is(e) == l <= Len(Rec) /\ E.ev = e /\ l' = l + 1
 On(p) == Prop = "ALL" \/ Prop = p
 A(p, n, x) == IF ~On(p) THEN TRUE ELSE IF x THEN TRUE ELSE Print(<<"FAILED-CLAUSE", p, n, l>>, FALSE)
+AnyA(ps, n, x) == IF ~(Prop = "ALL" \/ Prop \in ps) THEN TRUE ELSE IF x THEN TRUE ELSE Print(<<"FAILED-CLAUSE", Prop, n, l>>, FALSE)
 
 Init == /\ l = 1 /\ tin = <<>> /\ m = <<>> /\ M = <<>> /\ mext = <<>>
         /\ ext = [mem |-> <<>>, disk |-> <<>>] /\ users = [mem |-> <<>>, disk |-> <<>>] /\ hasDisk = FALSE /\ memo = {}
@@ -144,7 +145,15 @@ MergeNoBigramSig == /\ m # <<>> /\ m.bwi = <<>>
 PanicMerge == /\ Is("panic") /\ DevMergeNoBigram /\ MergeNoBigramSig
               /\ UNCHANGED <<tin, m, M, mext, ext, users, hasDisk, memo>>
 
-Next == TSession \/ ModelEv \/ WR \/ AddUser \/ Gen \/ TrainErr \/ PanicMerge
+(* the train and dictgen binaries against the library on the same inputs (training is
+   deterministic on one thread): dictgen reads the model train wrote, optionally adds the user
+   lexicon, and must write byte-identical files *)
+CliDiff == /\ Is("clidiff")
+           /\ AnyA({"C14", "C15"}, "tools-succeed-iff-library-does", E.lib_ok = (E.train_ok /\ E.dictgen_ok))
+           /\ AnyA({"C14", "C15"}, "train-and-dictgen-tools-write-the-library's-files", (E.lib_ok /\ E.dictgen_ok) => E.cli = E.lib)
+           /\ UNCHANGED <<tin, m, M, mext, ext, users, hasDisk, memo>>
+
+Next == TSession \/ ModelEv \/ WR \/ AddUser \/ Gen \/ TrainErr \/ PanicMerge \/ CliDiff
 Spec == Init /\ [][Next]_vars
 Accepted ==
    LET d == TLCGet("stats").diameter IN
